@@ -702,3 +702,102 @@ Proof.
   vm_compute. repeat constructor; vm_compute; discriminate.
 Qed.
 Close Scope N_scope.
+
+(* ---------- the repaired TunnelIDFromString (fixes/C10-wire-id-hash.diff) ---------- *)
+Open Scope N_scope.
+
+(* (5) for arbitrary 16-byte wire ids that differ (the statement tunnels_separated is the instance wire_id s1 / wire_id s2) *)
+Theorem tunnels_separated_tids M (HM : (M < 4294967296)%N) (HP : (1 <= M)%N) t1 t2 ops1 ops2 m weof caps dcap c :
+  length t1 = 16%nat -> length t2 = 16%nat -> t1 <> t2 ->
+  Interleave (script_frames M t1 false ops1) (script_frames M t2 false ops2) m ->
+  Forall (fun k => (1 <= k)%nat) caps -> (1 <= dcap)%nat ->
+  data_of (fst (fst (read_stream M t1 weof caps dcap (encode_all M m) c))) = accepted ops1 /\
+  last (fst (fst (read_stream M t1 weof caps dcap (encode_all M m) c))) RFuel = REof.
+Proof.
+  intros L1 L2 Hne Hi Hc Hd.
+  assert (Ho : Forall (fun f => relevant t1 f = false) (script_frames M t2 false ops2)).
+  { eapply Forall_impl; [|apply script_frames_tid]. intros f Hf. apply relevant_other_tid. rewrite Hf. congruence. }
+  assert (Hwf : Forall (wf_frame M) m).
+  { eapply interleave_forall; [exact Hi| |]; apply script_frames_wf; auto. }
+  destruct (foreign_never_delivered M HM t1 _ _ _ weof caps dcap c Hi Ho Hwf Hc Hd) as [H1 H2].
+  rewrite H1, H2.
+  pose proof (deliver_script M HM t1 HP ops1 [] FEof) as D. rewrite app_nil_r in D. rewrite D.
+  destruct (has_close ops1); cbn [fst snd deliver]; [auto|]. rewrite app_nil_r. auto.
+Qed.
+
+Lemma app_zeros_inj (s1 : list byte) : forall s2 k1 k2,
+  Forall (fun b => b <> 0) s1 -> Forall (fun b => b <> 0) s2 -> s1 ++ repeat 0 k1 = s2 ++ repeat 0 k2 -> s1 = s2.
+Proof.
+  induction s1 as [|a t1 IH]; intros s2 k1 k2 F1 F2 E.
+  - destruct s2 as [|b t2]; [reflexivity|]. inversion F2 as [|? ? Hb _]; subst.
+    destruct k1; cbn in E; [discriminate|]. injection E as E _. congruence.
+  - inversion F1 as [|? ? Ha F1']; subst. destruct s2 as [|b t2].
+    + destruct k2; cbn in E; [discriminate|]. injection E as E _. congruence.
+    + inversion F2 as [|? ? _ F2']; subst. cbn [app] in E. injection E as -> E. f_equal. eapply IH; eauto.
+Qed.
+
+Lemma wire_id_short s : (length s <= 16)%nat -> wire_id s = s ++ repeat 0 (16 - length s).
+Proof. intros H. unfold wire_id. now rewrite (@firstn_all2 _ 16 s) by lia. Qed.
+
+Section Hashed.
+  Variable H : list byte -> list byte.
+  Variable used : list byte -> Prop.                       (* the tunnel ids in use on a connection *)
+  (* exactly what is asked of the hash on the ids in use *)
+  Hypothesis H_len : forall s, used s -> (16 < length s)%nat -> length (H s) = 16%nat.
+  Hypothesis H_inj : forall s1 s2, used s1 -> used s2 -> (16 < length s1)%nat -> (16 < length s2)%nat -> H s1 = H s2 -> s1 = s2.
+  Hypothesis H_sep : forall s1 s2, used s1 -> used s2 -> (16 < length s1)%nat -> (length s2 <= 16)%nat -> H s1 <> wire_id s2.
+  (* short ids are stored verbatim and zero padded: they must not contain the padding byte (Go id strings never do) *)
+  Hypothesis no_nul : forall s, used s -> (length s <= 16)%nat -> Forall (fun b => b <> 0) s.
+
+  Lemma wire_id_h_length s : used s -> length (wire_id_h H s) = 16%nat.
+  Proof.
+    intros Hu. unfold wire_id_h. destruct (Nat.leb_spec (length s) 16) as [Hl|Hl]; [apply wire_id_length|apply H_len; auto].
+  Qed.
+
+  Lemma wire_id_h_injective s1 s2 : used s1 -> used s2 -> s1 <> s2 -> wire_id_h H s1 <> wire_id_h H s2.
+  Proof.
+    intros U1 U2 Hne E. unfold wire_id_h in E.
+    destruct (Nat.leb_spec (length s1) 16) as [L1|L1]; destruct (Nat.leb_spec (length s2) 16) as [L2|L2].
+    - rewrite (wire_id_short s1 L1), (wire_id_short s2 L2) in E.
+      apply Hne. eapply app_zeros_inj; [apply no_nul| apply no_nul|exact E]; auto.
+    - symmetry in E. exact (H_sep s2 s1 U2 U1 L2 L1 E).
+    - exact (H_sep s1 s2 U1 U2 L1 L2 E).
+    - apply Hne. apply H_inj; auto.
+  Qed.
+
+  (* the FULL string-level statement for the repaired code, for all tunnel ids in use *)
+  Theorem tunnels_separated_hashed M (HM : (M < 4294967296)%N) (HP : (1 <= M)%N) s1 s2 ops1 ops2 m weof caps dcap c :
+    used s1 -> used s2 -> s1 <> s2 ->
+    Interleave (script_frames M (wire_id_h H s1) false ops1) (script_frames M (wire_id_h H s2) false ops2) m ->
+    Forall (fun k => (1 <= k)%nat) caps -> (1 <= dcap)%nat ->
+    data_of (fst (fst (read_stream M (wire_id_h H s1) weof caps dcap (encode_all M m) c))) = accepted ops1 /\
+    last (fst (fst (read_stream M (wire_id_h H s1) weof caps dcap (encode_all M m) c))) RFuel = REof.
+  Proof.
+    intros U1 U2 Hne. apply tunnels_separated_tids; auto using wire_id_h_length, wire_id_h_injective.
+  Qed.
+End Hashed.
+
+(* non-vacuity of the hypotheses: a toy hash (the reversed string, padded) separates the two colliding ids and a short id *)
+Definition toy_hash (s : list byte) : list byte := wire_id (rev s).
+Definition toy_used (s : list byte) : Prop := In s [id_a; id_b; [97;98;99]].
+Lemma hashed_premises_satisfiable :
+  (forall s, toy_used s -> (16 < length s)%nat -> length (toy_hash s) = 16%nat) /\
+  (forall s1 s2, toy_used s1 -> toy_used s2 -> (16 < length s1)%nat -> (16 < length s2)%nat -> toy_hash s1 = toy_hash s2 -> s1 = s2) /\
+  (forall s1 s2, toy_used s1 -> toy_used s2 -> (16 < length s1)%nat -> (length s2 <= 16)%nat -> toy_hash s1 <> wire_id s2) /\
+  (forall s, toy_used s -> (length s <= 16)%nat -> Forall (fun b => b <> 0) s) /\
+  toy_used id_a /\ toy_used id_b /\ id_a <> id_b /\ wire_id id_a = wire_id id_b /\ wire_id_h toy_hash id_a <> wire_id_h toy_hash id_b.
+Proof.
+  unfold toy_used.
+  split; [intros s _ _; apply wire_id_length|].
+  split.
+  { intros s1 s2 [<-|[<-|[<-|[]]]] [<-|[<-|[<-|[]]]] L1 L2 E; try reflexivity;
+      try (vm_compute in L1; lia); try (vm_compute in L2; lia); vm_compute in E; discriminate. }
+  split.
+  { intros s1 s2 [<-|[<-|[<-|[]]]] [<-|[<-|[<-|[]]]] L1 L2; try (vm_compute in L1; lia); try (vm_compute in L2; lia);
+      vm_compute; discriminate. }
+  split.
+  { intros s [<-|[<-|[<-|[]]]] L; try (vm_compute in L; lia). repeat constructor; discriminate. }
+  split; [cbn; auto|]. split; [cbn; auto|].
+  split; [vm_compute; discriminate|]. split; [vm_compute; reflexivity|vm_compute; discriminate].
+Qed.
+Close Scope N_scope.
